@@ -45,8 +45,8 @@ PROPS["C12"] = dict(
 )
 
 PROPS["C13"] = dict(
-    suites=["c13"],
-    shards={"c13": 4},
+    suites=["c13", "c13e"],
+    shards={"c13": 4, "c13e": 1},
     lean_modules=["ServlinVerif.Props.C13"],
     audit="Audit/C13.lean",
     rule="whole servers on loopback with their own permit: revocation injected with 0..45 ms random delay at each phase of a connection's life {no "
@@ -54,9 +54,11 @@ PROPS["C13"] = dict(
          "client not reading), all max_conns slots occupied by idle connections for max_conns 1..4} and 14 (120) random mixes of 1..max_conns "
          "connections in those phases; observed: no stopped signal before revocation, stopped signal within 2 s (3 s wait), connect() after the "
          "signal refused, each connection's in-flight or next request answered completely (status + declared length) and the request after it not "
-         "served (closed) — also when the further requests arrive pipelined in one write (phases I, H). Non-trivial = at least one open connection at revocation.",
+         "served (closed) — also when the further requests arrive pipelined in one write (phases I, H). c13e: 2 (5) servers whose "
+         "accept() keeps failing with EMFILE (descriptor table filled, a client waiting in the backlog; needs prlimit(1)), revoked 150..750 ms into "
+         "that state: the stopped signal must still arrive (within 2.5 s: one 500 ms error sleep) and the port must then refuse connections. Non-trivial = at least one open connection at revocation.",
     nontrivial=lambda tag, args, obs: args[1] != "-",
-    klass=lambda tag, args, obs: "c13:conns=%d:allslots=%s" % (len(args[1].replace("-", "")), "yes" if len(args[1].replace("-", "")) == int(args[0]) else "no"),
+    klass=lambda tag, args, obs: "c13e:accept-failing" if tag == "c13e" else "c13:conns=%d:allslots=%s" % (len(args[1].replace("-", "")), "yes" if len(args[1].replace("-", "")) == int(args[0]) else "no"),
     explanation="Model/Server.lean. C13_rank_decreases/C13_bounded: after revocation the accept loop takes at most 3 more steps of its own in every "
                 "schedule; C13_progress: in the repaired loop such a step is always enabled without anything from outside (no free slot, client or "
                 "connection ending needed); C13_never_early (stopped only after revocation; at most one straggler accept), C13_stopped_final; "
@@ -467,17 +469,19 @@ PROPS["C10"] = dict(
 )
 
 PROPS["C11"] = dict(
-    suites=["c11"],
+    suites=["c11", "c11c"],
     lean_modules=["ServlinVerif.Props.C11", "ServlinVerif.Props.C07"],
     audit="Audit/C11.lean",
-    rule="Response::event_stream() + body.async_reader() + copy_chunked_async polled by hand (no-op waker) between sender steps: ALL "
+    rule="c11c: the checked constructor Event::custom on 19 hand-picked types x 3 data and on every type of up to 4 (5) symbols over {a, SP, CR, LF, ':', e-acute} "
+         "(a type with a line break must be refused, any other accepted and encoded as the model says). c11: "
+         "Response::event_stream() + body.async_reader() + copy_chunked_async polled by hand (no-op waker) between sender steps: ALL "
          "sequences up to depth 4 (5) over {send a, send on a clone, clone, disconnect, drop, drop clone, poll, send empty} + final poll; "
          "21 event contents (empty, LF/CRLF/lone CR, trailing breaks, leading space/colon, field-injection text, non-ASCII, 65520..70000 "
          "bytes, 9000 lines) as message and custom events; queue overruns (49..120 sends without a poll, on one and two handles); 2000 (20000) "
          "random programs of 3..14 steps; multi-threaded stress with 1..4 sender threads x {10, 200} events. Non-trivial = at least one event "
          "was accepted.",
     nontrivial=lambda tag, args, obs: "wire= " not in obs,
-    klass=lambda tag, args, obs: tag + ":done=" + obs.rsplit("done=", 1)[-1],
+    klass=lambda tag, args, obs: (tag + ":" + obs[:3]) if tag == "c11c" else tag + ":done=" + obs.rsplit("done=", 1)[-1],
     explanation="Channel + encoder modelled as a transition system over {send, clone, disconnect, drop, poll}; C11_invariant (induction over "
                 "arbitrary op sequences): delivered ++ queued = accepted in order, queue <= 50, wire = one chunk per delivered event (+ "
                 "terminator iff ended), ended only when every sender is gone; C11_never_blocks; C11_ends_when_all_gone. Format: the "
